@@ -40,7 +40,11 @@ func (e *Engine) loadCatalogue() error {
 		}
 	}
 	for _, cs := range e.constTables {
-		for _, c := range cs {
+		for _, cv := range cs {
+			c, ok := cv.(*ssa.Const)
+			if !ok {
+				continue
+			}
 			if c.Value != nil && c.Value.Kind() == constant.String {
 				pats[constant.StringVal(c.Value)] = true
 			}
